@@ -472,6 +472,14 @@ def run(ctx: Ctx) -> int:
                 fn=nad,
             )
 
+    # ---------------- C11.e: a dict becomes a Namespace (**keywords) only when ALL its keys are strings ----------------------
+    xd = ctx.func("_namespace:expand_dict")
+    guards_ = [c for c in calls_in(xd) if call_leaf(c) in ("all", "any") and any(isinstance(x, ast.Call) and call_leaf(x) == "isinstance" and ast.unparse(x.args[1]) == "str" for x in ast.walk(c))]
+    ctx.floor("C11.e-string-key-guards", len(guards_), 2)
+    for c in guards_:
+        ok = call_leaf(c) == "all"
+        ctx.oblige("C11.e", ok, c, "only dicts whose keys are all strings are expanded into a Namespace" if ok else "a dict with SOME string key is expanded with Namespace(**d): a list element {'a': 1, 2: 3} raises TypeError ('keywords must be strings') out of dict_to_namespace instead of staying a dict leaf", fn=xd)
+
     return ctx.finish(
         explanation=(
             "File-local key-kind analysis of _namespace.py: every key that reaches object storage passed add_clash_mark, every lookup uses a marked (or raw __dict__) key, every key that "
